@@ -25,21 +25,43 @@ ACCESS = "vgi_rpc.access"
 class Capture(logging.Handler):
     """Formats every record with the real access-log formatter and keeps the parsed line."""
 
-    def __init__(self, cap: int) -> None:
+    def __init__(self, cap: int, instant: float | None = None) -> None:
         super().__init__(level=logging.DEBUG)
         from vgi_rpc.logging_utils import VgiAccessLogFormatter
 
         self.fmt = VgiAccessLogFormatter(max_record_bytes=cap)
         self.lines: list[dict[str, Any]] = []
         self.raw_sizes: list[int] = []
+        self.raw: list[logging.LogRecord] = []
+        self.instant = instant
 
     def emit(self, record: logging.LogRecord) -> None:
+        if self.instant is not None:
+            # the record-creation instant is an input of the case: what logging stamped is replaced before formatting
+            restamp(record, self.instant)
+        self.raw.append(record)
         text = self.fmt.format(record)
         self.raw_sizes.append(len(text.encode("utf-8")))
         self.lines.append(json.loads(text))
 
 
 TOKEN_KEY = b"verif-interp-token-key-0123456789"
+
+
+def restamp(record: logging.LogRecord, instant: float) -> None:
+    """Give a LogRecord the creation instant ``instant`` (seconds since the epoch), as LogRecord.__init__ would."""
+    record.created = instant
+    record.msecs = (instant - int(instant)) * 1000.0
+
+
+def format_at(template: logging.LogRecord, instant: float, cap: int = 1 << 20) -> tuple[str, dict[str, Any]]:
+    """A copy of a captured access-log LogRecord, stamped at ``instant``, through the real VgiAccessLogFormatter."""
+    from vgi_rpc.logging_utils import VgiAccessLogFormatter
+
+    rec = logging.makeLogRecord(dict(template.__dict__))
+    restamp(rec, instant)
+    text = VgiAccessLogFormatter(max_record_bytes=cap).format(rec)
+    return text, json.loads(text)
 
 
 class Tap:
@@ -176,7 +198,7 @@ def describe_request_bytes() -> bytes:
     return request_bytes("__describe__", pa.schema([]), None, {})
 
 
-def run_history(kind: str, cfg: dict[str, Any] | None, debug: bool, cap: int, items: list[Any]) -> dict[str, Any]:
+def run_history(kind: str, cfg: dict[str, Any] | None, debug: bool, cap: int, items: list[Any], instant: float | None = None) -> dict[str, Any]:
     """Run a list of items on one transport under one capture.
 
     item = ["script", program, script] | ["describe"] | ["raw", path, body_hex]   (the last two: HTTP only)
@@ -187,7 +209,7 @@ def run_history(kind: str, cfg: dict[str, Any] | None, debug: bool, cap: int, it
     setup()
     logger = logging.getLogger(ACCESS)
     saved = (logger.level, logger.propagate, list(logger.handlers))
-    cap_h = Capture(cap)
+    cap_h = Capture(cap, instant)
     requests: list[dict[str, Any]] = []
     traces: list[Any] = []
     tap = http_tap(cfg or {}) if kind == "http" else None
@@ -243,4 +265,4 @@ def run_history(kind: str, cfg: dict[str, Any] | None, debug: bool, cap: int, it
         logger.setLevel(saved[0])
         logger.propagate = saved[1]
         logger.handlers = saved[2]
-    return {"records": cap_h.lines, "requests": requests, "traces": traces, "sizes": cap_h.raw_sizes}
+    return {"records": cap_h.lines, "requests": requests, "traces": traces, "sizes": cap_h.raw_sizes, "raw": cap_h.raw}
